@@ -571,6 +571,54 @@ class Run:
             self.violations.append({"what": "history %d of the registry stress run has no linearization (stuck at event %d)" % (h, at), "replay": rp})
         os.remove(path)
 
+    # -- C20 -------------------------------------------------------------------------------------
+    def parallel(self, driver, n, goroutines=16, rounds=1, types=None, seed_off=0, small=False):
+        """the driver's histories run alone and then by many goroutines at once (race detector on);
+        TLC validates the parallel events sequentially and against their solo twins"""
+        vd = self.build()
+        vr = self.build(race=True)
+        hp = self.gen_histories(driver, n, types=types, seed_off=seed_off)
+        out = os.path.join(self.scratch, "par-%s-%d.ndjson" % (driver, self.seed + seed_off))
+        cmd = [vr, "conc", "parallel", "-in", hp, "-out", out, "-goroutines", str(goroutines), "-rounds", str(rounds)]
+        p = subprocess.run(cmd, capture_output=True, text=True, timeout=3600,
+                           env=dict(os.environ, GORACE="halt_on_error=0 exitcode=66", VERIF_SCHEMA=SCHEMA))
+        if "DATA RACE" in p.stderr or p.returncode == 66:
+            rp = self.write_replay({"kind": "race", "cmd": " ".join(cmd[1:]), "report": p.stderr[:6000], "histories": open(hp).read().splitlines()[:2000]})
+            self.violations.append({"what": "the race detector reported a data race while independent messages were encoded/decoded in parallel", "replay": rp})
+            log("  parallel %s: DATA RACE reported by the race detector" % driver)
+            return
+        if p.returncode != 0:
+            raise Broken("conc parallel failed: rc=%d %s" % (p.returncode, p.stderr[-1500:]))
+        # the solo events must stay addressable by line number: no chunking, one TLC run
+        nev = sum(1 for _ in open(out))
+        nh = len(set(re.findall(r'"h":(\d+),"twin"', open(out).read())))
+        st = {"histories": nh, "events": nev, "types": len(types) if types else 170, "classes": 0, "res_counts": {}, "samples": []}
+        classes = set()
+        for line in open(out):
+            e = json.loads(line)
+            st["res_counts"][e["op"] + ":" + e["res"]] = st["res_counts"].get(e["op"] + ":" + e["res"], 0) + 1
+            if e["twin"] > 0 and e["op"] in ("encode", "decode"):
+                classes.add((e["t"], e["op"], e["res"]))
+                if len(st["samples"]) < 2:
+                    st["samples"].append(e)
+        st["classes"] = len(classes)
+        res = validate_trace(out, "C20", self.scratch, chunk=10 ** 9)
+        if res["nchk"] != nev:
+            raise Broken("TLC validated %d of %d events" % (res["nchk"], nev))
+        self.cov["traces_validated_against_impl"] += nh
+        self.cov["evaluations"] += nev
+        self.cov["states"] += res["distinct"]
+        self.cov["transitions"] += res["generated"]
+        self.cov["distinct_nontrivial"] += st["classes"]
+        self.cov["trace_runs"].append({"driver": "parallel:" + driver, "goroutines": goroutines, "rounds": rounds, "histories": nh, "events": nev,
+                                       "res_counts": st["res_counts"], "rejected": len(res["bad"])})
+        if len(self.cov["samples"]) < 4:
+            for sm in st["samples"][:1]:
+                self.cov["samples"].append({"driver": "parallel:" + driver, "event": compact_event(sm)})
+        log("  parallel %-16s %3d goroutines x %d rounds: %6d histories %7d events -> TLC rejected %d" % (driver, goroutines, rounds, nh, nev, len(res["bad"])))
+        self._classify(res["bad"], out, driver)
+        os.remove(out)
+
     def _nontriv_add(self, driver, st):
         self.cov["distinct_nontrivial"] += st["classes"]
 
@@ -578,7 +626,7 @@ class Run:
         seen_h = set()
         for b in bad:
             cprop = b["clause"].split(".")[0]
-            if cprop != self.prop:
+            if cprop != self.prop and not (self.prop == "C20" and cprop in ("C01", "C06", "C07")):
                 continue
             f = ledger_match(self.ledger, self.prop, b["dev"], b["t"]) if b["dev"] != "none" else None
             if f:
